@@ -651,6 +651,37 @@ class C30(HistoryProfile):
               "add_data_column": 8})
     return w
 
+  def config(self, rng, tier):
+    cfg = super(C30, self).config(rng, tier)
+    cfg["fanout_start"] = rng.random() < 0.35
+    return cfg
+
+  def first_events(self, sim, g, cfg):
+    yield {"k": "open"}
+    if not cfg.get("fanout_start"):
+      return
+    # A document in which one user action fans out over several records of the same kind (the
+    # places where an engine iterates over a set of records): a column with several rule helper
+    # columns, a column shown in several sorted sections and grouped by several summary tables.
+    t = g.new_table_id()
+    a, b, c = g.new_col_id(), g.new_col_id(), g.new_col_id()
+    yield {"k": "bundle", "ops": ["add_table"], "a": [
+      ["AddTable", t, [{"id": a, "type": "Int", "isFormula": False}, {"id": b, "type": "Text", "isFormula": False},
+                       {"id": c, "type": "Int", "isFormula": False}]],
+      ["BulkAddRecord", t, [None] * 3, {a: [1, 2, 1], b: ["x", "y", "x"], c: [5, 6, 7]}]]}
+    for _ in range(g.rng.randint(2, 4)):
+      # (on a column that nothing else pins down, so that the history may remove it)
+      yield {"k": "bundle", "ops": ["add_rule"], "a": [["AddEmptyRule", t, 0, DocView(sim.sigma).tables[t].cols[c].ref]]}
+    dv = DocView(sim.sigma)
+    ta = dv.tables[t]
+    for gb in ([ta.cols[a].ref], [ta.cols[a].ref, ta.cols[b].ref]):
+      yield {"k": "bundle", "ops": ["add_summary"], "a": [["CreateViewSection", ta.ref, 0, "record", sorted(gb), None]]}
+    dv = DocView(sim.sigma)
+    secs = [r for r, rec in dv.records("_grist_Views_section") if rec.get("tableRef") == ta.ref][:3]
+    for r in secs:
+      yield {"k": "bundle", "ops": ["set_sort"], "a": [
+        ["UpdateRecord", "_grist_Views_section", r, {"sortColRefs": json.dumps([ta.cols[c].ref])}]]}
+
   def step(self, sim, ev, st):
     out = sim.do(ev)
     for n in ev.get("ops", ()):
